@@ -8,7 +8,7 @@ PROP = "C13"
 GEN = []
 VO = ["Properties/C13.vo", "Extract/D_Hash.vo", "Extract/O_C13.vo"]
 MODULE = "Properties.C13"
-THEOREMS = ["c13_windows", "c13_evictions", "c13_never_failed", "c13_escapes", "c13_no_bypass", "c13_retry_window", "c13_not_evicted_by_one", "c13_eviction_clean", "c13_eviction_contact"]
+THEOREMS = ["c13_windows", "c13_evictions", "c13_never_failed", "c13_escapes", "c13_revival", "c13_rotation_restored", "c13_no_bypass", "c13_retry_window", "c13_not_evicted_by_one", "c13_eviction_clean", "c13_eviction_contact"]
 DRIVER = "D_Hash"
 ORACLE = "O_C13"
 TECHNIQUE = ("Coq proof on a hand-written Gallina model of HashClient: the probing bounds for every history of key-addressed calls "
@@ -27,9 +27,11 @@ LEVEL_TEXT = ("c13_windows: for every placement function that returns nodes in r
               "valid keys every call returns a value or - only without ignore_exc - raises an OSError-class error or MemcacheError "
               "(all servers down): never a KeyError/ValueError of the failover tables. Proved for every state: c13_no_bypass, "
               "c13_retry_window, c13_not_evicted_by_one, c13_eviction_clean (no KeyError/ValueError, only the evicted server "
-              "changes), c13_eviction_contact. PARTIAL: recovery of the original placement within two "
-              "dead_timeout periods is checked by blip episodes and random long histories on the real class (with the same "
-              "oracle and clauses), not proved.")
+              "changes), c13_eviction_contact. c13_revival + c13_rotation_restored: the call that finds the "
+              "dead-server check due and every evicted server out for more than dead_timeout empties the eviction table, and "
+              "whenever that table is empty the rotation is exactly the set of servers the client started with (the check time only "
+              "moves to the time of a call, hence 'within two dead_timeout periods of traffic'). The search on the real class runs "
+              "the same oracle and clauses (blip episodes, random long histories, recovery probes).")
 LEVEL_NOTE = ("Trusted: Coq kernel; hand model's correspondence with hash.py (random histories of key-addressed calls, clock "
               "advances and failing/recovering servers: results, contact log, hasher nodes, failure/dead tables compared). "
               "'Failing' means raising an OSError-family error (the only errors the mechanism counts). No axioms.")
